@@ -157,6 +157,10 @@ type Elem struct {
 	Cert int `json:"cert"` // pool index
 	OCSP int `json:"ocsp"` // length, -1 = absent
 	SCT  int `json:"sct"`  // length, -1 = absent
+	// Alias k > 0: this chain element is the SAME OBJECT (*AugmentedCertificate pointer) as element
+	// k-1 (a self-signed leaf that is also the root, a caller reusing one value); Cert / OCSP / SCT
+	// above are ignored and taken from that element.
+	Alias int `json:"alias,omitempty"`
 }
 
 type ChainCase struct {
@@ -185,6 +189,15 @@ func (c ChainCase) materialize(P []*x509.Certificate) ([]mat, certurl.CertChain,
 	var ms []mat
 	chain := certurl.CertChain{}
 	for i, e := range c.Elems {
+		if e.Alias > 0 {
+			if e.Alias-1 >= i {
+				return nil, nil, false
+			}
+			c.Elems[i].Cert, c.Elems[i].OCSP, c.Elems[i].SCT = c.Elems[e.Alias-1].Cert, c.Elems[e.Alias-1].OCSP, c.Elems[e.Alias-1].SCT
+			ms = append(ms, ms[e.Alias-1])
+			chain = append(chain, chain[e.Alias-1])
+			continue
+		}
 		if e.Cert < 0 || e.Cert >= len(P) || e.OCSP > 1<<20 || e.SCT > 1<<20 {
 			return nil, nil, false
 		}
@@ -471,6 +484,14 @@ func TestPropChain(t *testing.T) {
 				e.OCSP = drawOptBlobLen(t, "ocsp")
 			}
 			c.Elems = append(c.Elems, e)
+		}
+		if len(c.Elems) >= 1 && len(c.Elems) < 5 && rapid.IntRange(0, 5).Draw(t, "alias") == 0 {
+			// one more element that is the same object as an earlier one (the leaf, mostly)
+			k := 1
+			if rapid.IntRange(0, 2).Draw(t, "aliasleaf") == 0 {
+				k = rapid.IntRange(1, len(c.Elems)).Draw(t, "aliasof")
+			}
+			c.Elems = append(c.Elems, Elem{Alias: k})
 		}
 		if rapid.IntRange(0, 3).Draw(t, "failfirst") == 0 {
 			c.FailFirst = 1 + rapid.SampledFrom([]int{0, 1, 9, 10, 30, 500, 1000, 3000}).Draw(t, "failat")
